@@ -11,5 +11,6 @@ type Prop struct {
 // Registry maps property ids to their checks.
 var Registry = map[string]Prop{
 	"C01": {C01, c01Replay},
+	"C09": {C09, c09Replay},
 	"C10": {C10, c10Replay},
 }
